@@ -205,6 +205,11 @@ def dispatch (fixed : Bool) (nb : Nat) (f : Func) : Func :=
   let b2 := phaseBlocks fixed cpOf 0 b1
   ⟨prelude nb (changedBlocks dmOf f.blocks) (changedBlocks cpOf b1) ++ f.pre, b2⟩
 
+/-- the pattern is applied to every `func.func` of the module on its own; neither the visibility nor the
+    name of a function is looked at (so the model of a function carries neither), and an external
+    declaration is a function without blocks -/
+def dispatchModule (fixed : Bool) (nb : Nat) (m : List Func) : List Func := m.map (dispatch fixed nb)
+
 /-- the external declaration of `snax_cluster_core_idx` is inserted iff the call is -/
 def declInserted (nb : Nat) (f : Func) : Bool :=
   changedBlocks dmOf f.blocks || changedBlocks cpOf (phaseBlocks true dmOf (nb - 1) f.blocks)
